@@ -47,8 +47,31 @@ MetaFailed(ev) ==
                    ELSE IF mine(run.protos) # mine(base.protos) THEN {"order/protoclusters_independent_of_other_rules"} ELSE {}
                : i \in DOMAIN ev.orders}
 
+(* op "selections": the shipped rules asked for several times in one process (all of them, limited to some names, all
+   again, ...): sels == Seq([names : Seq(rule name) - empty for all, rules : Seq([name, cutoff, nbhd])]), the first
+   selection being the full ruleset.  What a rule is - its distances - and the order rules are applied in do not depend
+   on which other rules were asked for, before or alongside (C07, second half) *)
+SelectionsFailed(ev) ==
+    IF ev.exc # "" THEN {"selections/no_exception:" \o ev.exc}
+    ELSE LET sels == ev.sels
+             full == sels[1].rules
+             names(rs) == {rs[i].name : i \in DOMAIN rs}
+             posIn(rs, n) == CHOOSE i \in DOMAIN rs : rs[i].name = n
+         IN  (IF \E i, j \in DOMAIN sels : \E a \in DOMAIN sels[i].rules, b \in DOMAIN sels[j].rules :
+                     /\ sels[i].rules[a].name = sels[j].rules[b].name
+                     /\ (sels[i].rules[a].cutoff # sels[j].rules[b].cutoff \/ sels[i].rules[a].nbhd # sels[j].rules[b].nbhd)
+              THEN {"selections/rule_distances_independent_of_the_selection"} ELSE {})
+             \cup (IF \E i \in DOMAIN sels : names(sels[i].rules) #
+                        (IF sels[i].names = <<>> THEN names(full) ELSE SeqToSet(sels[i].names) \cap names(full))
+                   THEN {"selections/holds_exactly_the_requested_rules"} ELSE {})
+             \cup (IF \E i \in DOMAIN sels : \E a, b \in DOMAIN sels[i].rules :
+                        /\ a < b /\ sels[i].rules[a].name \in names(full) /\ sels[i].rules[b].name \in names(full)
+                        /\ posIn(full, sels[i].rules[a].name) > posIn(full, sels[i].rules[b].name)
+                   THEN {"selections/rules_in_rule_file_order"} ELSE {})
+
 Failed(ev) == CASE ev.op = "detect" -> DetectEvFailed(ev.scene, ev.rules, ev.out)
                 [] ev.op = "meta" -> MetaFailed(ev)
+                [] ev.op = "selections" -> SelectionsFailed(ev)
                 [] OTHER -> {"trace/unknown_op"}
 
 Init == l = 1
